@@ -326,9 +326,10 @@ macro_rules! impl_cache {
                 // to prevent items from being prematurely removed from the map.
                 let external_cost = if cost == 0 { self.coster.cost(&val) } else { 0 };
                 match self.store.try_update(index, val, conflict, expiration)? {
-                    UpdateResult::NotExist(v)
-                    | UpdateResult::Reject(v)
-                    | UpdateResult::Conflict(v) => {
+                    // The validator vetoed the replacement: the resident entry keeps its value,
+                    // its expiration and its charged cost, so nothing is sent to the policy.
+                    UpdateResult::Reject(_) => Ok(None),
+                    UpdateResult::NotExist(v) | UpdateResult::Conflict(v) => {
                         if only_update {
                             Ok(None)
                         } else {
@@ -642,9 +643,10 @@ macro_rules! impl_async_cache {
                 // to prevent items from being prematurely removed from the map.
                 let external_cost = if cost == 0 { self.coster.cost(&val) } else { 0 };
                 match self.store.try_update(index, val, conflict, expiration)? {
-                    UpdateResult::NotExist(v)
-                    | UpdateResult::Reject(v)
-                    | UpdateResult::Conflict(v) => {
+                    // The validator vetoed the replacement: the resident entry keeps its value,
+                    // its expiration and its charged cost, so nothing is sent to the policy.
+                    UpdateResult::Reject(_) => Ok(None),
+                    UpdateResult::NotExist(v) | UpdateResult::Conflict(v) => {
                         if only_update {
                             Ok(None)
                         } else {
